@@ -16,7 +16,8 @@ func init() {
 		Explanation: "Narrow - framing shape and error discipline only: (R1) writer and reader agree on the block-stream framing: a big-endian uint32 total uncompressed length (the uncompressedLen parameter), then per chunk a uint32 length slot reserved at len(b) before Encode and filled with the length Encode returned for that chunk; the reader reads a uint32 block length, then uint32 chunk length + that many bytes + Decode until the running sum of decoded lengths reaches the block length, and rejects an overrun; " +
 			"(R2) every error result in the reader is tested and returned as an error; " +
 			"(R3) every slice/index of the reader is in bounds and its loops consume input (C11 engine on this sub-surface); " +
-			"(R4) the snappy codec appends to dst and reports the length of exactly what it appended.",
+			"(R4) the snappy codec appends to dst and reports the length of exactly what it appended." +
+			" Added after the seeded-change rounds: (R1) a != test of the running length against the block length is accepted after the loop established >=; (R2) buffers are recycled only at the request-side sites (shared with C02.R3); (R3) writer progress: the chunk loop reads again only on the edge where the previous Read returned n != 0; a length read from the stream is never compared with the amount of input (the framing implies no compression ratio).",
 		Residue:   "byte-exact equality with Hadoop's BlockCompressorStream, behaviour at the real chunk size, and 'corruption yields an error': raw snappy blocks carry no checksum, so a flipped literal byte decodes silently - no static rule can make that clause true",
 		Technique: "value provenance and ordering over SSA, error-discipline check, bounds obligations from the C11 engine",
 		Run:       runC15,
